@@ -18,6 +18,7 @@ import (
 type RLWECase struct {
 	Spec    h.RLWESpec `json:"params"`
 	Bpw2    int        `json:"bpw2,omitempty"`
+	Keys    KeyLevels  `json:"keys,omitempty"`
 	Level   int        `json:"level"`
 	Seed    uint64     `json:"seed"`
 	Op      string     `json:"op"` // Automorphism | AutomorphismHoisted | AutomorphismHoistedLazy | Trace | PartialTracesSum
@@ -37,7 +38,11 @@ func genRLWE(t *rapid.T) RLWECase {
 	var c RLWECase
 	c.Op = rlweOps[rapid.IntRange(0, len(rlweOps)-1).Draw(t, "op")]
 	s := &c.Spec
-	s.LogN = rapid.IntRange(4, maxLogN()).Draw(t, "logN")
+	big := 9
+	if c.Op == "Automorphism" || c.Op == "AutomorphismHoisted" || c.Op == "AutomorphismHoistedLazy" {
+		big = 10
+	}
+	s.LogN = genLogN(t, big)
 	s.CI = rapid.IntRange(0, 2).Draw(t, "ringType") == 0
 	s.NTT = rapid.IntRange(0, 2).Draw(t, "nttFlag") != 0
 	n := s.N()
@@ -70,6 +75,7 @@ func genRLWE(t *rapid.T) RLWECase {
 	req.msgOverTot = 12 + math.Log2(float64(terms)) + 3
 	s.Q, s.P, c.Bpw2 = genModuli(t, s.LogN, s.NthRoot(), s.Xs, s.Xe, req, map[uint64]bool{})
 	c.Level = rapid.IntRange(0, len(s.Q)-1).Draw(t, "level")
+	c.Keys = genSetKeys(t, s, c.Level, c.Op == "PartialTracesSum")
 	c.Seed = rapid.Uint64().Draw(t, "seed")
 	return c
 }
@@ -110,7 +116,7 @@ func runRLWE(c RLWECase, rec *h.Rec) error {
 		terms, depth = c.N, bitsLen(c.N)+3
 	}
 	be, sl1 := c.Spec.Xe.AbsBound(), h.SecretL1(c.Spec.Xs, n)
-	ks := ksNoiseLog2(n, qs, c.Spec.P, c.Bpw2, be, sl1)
+	ks := ksNoiseLog2(n, qs, c.Keys.usedP(c.Spec.P), c.Bpw2, be, sl1)
 	noise := totalNoiseLog2(terms, depth, ks, be)
 	msgBits := int(math.Floor(log2Prod(qs) - 3 - math.Log2(float64(terms))))
 	if float64(msgBits) < noise+10 {
@@ -214,13 +220,16 @@ func runRLWE(c RLWECase, rec *h.Rec) error {
 		if g != refGalois(c.K, nth) && !c.Conj {
 			return h.Failf("C11:alg:GaloisElement:value", "GaloisElement(%d)=%d", c.K, g)
 		}
-		keys = keysFor(kgen, sk, []uint64{g}, c.Bpw2)
+		keys = keysFor(kgen, sk, []uint64{g}, c.Bpw2, c.Keys)
 		eval := rlwe.NewEvaluator(p, keys)
 		detail = fmt.Sprintf("%s(galEl=%d = 5^%d conj=%v) inPlace=%v", c.Op, g, c.K, c.Conj, c.InPlace)
 		if want, err = auto(msg, g); err != nil {
 			return err
 		}
 		levelP := p.MaxLevelP()
+		if c.Keys.Set {
+			levelP = c.Keys.LP // the caller decomposes (and divides) for the auxiliary modulus of the key
+		}
 		switch c.Op {
 		case "Automorphism":
 			err = eval.Automorphism(ct, g, out)
@@ -249,7 +258,7 @@ func runRLWE(c RLWECase, rec *h.Rec) error {
 			nontrivial = fmt.Sprintf("k=%s|conj=%v", kClass(c.K, order), c.Conj)
 		}
 	case "PartialTracesSum", "InnerFunction":
-		keys = keysFor(kgen, sk, rlwe.GaloisElementsForInnerSum(p, c.Offset, c.N), c.Bpw2)
+		keys = keysFor(kgen, sk, rlwe.GaloisElementsForInnerSum(p, c.Offset, c.N), c.Bpw2, c.Keys)
 		eval := rlwe.NewEvaluator(p, keys)
 		detail = fmt.Sprintf("%s(offset=%d, n=%d) inPlace=%v", c.Op, c.Offset, c.N, c.InPlace)
 		want = make([]*big.Int, n)
@@ -300,7 +309,7 @@ func runRLWE(c RLWECase, rec *h.Rec) error {
 		} else {
 			galEls = rlwe.GaloisElementsForTrace(p, c.LogTr)
 		}
-		keys = keysFor(kgen, sk, galEls, c.Bpw2)
+		keys = keysFor(kgen, sk, galEls, c.Bpw2, c.Keys)
 		eval := rlwe.NewEvaluator(p, keys)
 		// documented: a monomial X^k is kept unchanged when k is divisible by N/n and vanishes otherwise. The kept set is
 		// the fixed ring of the group generated by the advertised elements: exponents divisible by `step`.
@@ -362,6 +371,7 @@ func runRLWE(c RLWECase, rec *h.Rec) error {
 	rec.Classf("ntt=%v", c.Spec.NTT)
 	rec.Classf("logN=%d", c.Spec.LogN)
 	rec.Classf("nP=%d", len(c.Spec.P))
+	rec.Class(c.Keys.class(p.MaxLevelQ(), p.MaxLevelP()))
 	if nontrivial != "" {
 		rec.NonTrivial(fmt.Sprintf("rlwe|%s|%s|ntt=%v|logN=%d|nP=%d|lvl=%d/%d|%s|inplace=%v", c.Op, ringName(c.Spec.CI), c.Spec.NTT, c.Spec.LogN, len(c.Spec.P), c.Level, len(c.Spec.Q)-1, nontrivial, c.InPlace))
 	}
